@@ -628,6 +628,9 @@ func (w *w2) judgeExpiry() {
 			}
 		}
 		for i, e := range mine {
+			// (ILLEGAL_GENERATION is not removal: this coordinator answers it, not REBALANCE_IN_PROGRESS, when
+			// another member's expiry moved the group on; the member rejoins under its id. A rule that read it
+			// as removal was tried and withdrawn: it fired on the unchanged tree.)
 			if i == 0 || !unknown(e) {
 				continue
 			}
